@@ -88,7 +88,8 @@ class C06(Prop):
     quick_examples = 1200
     thorough_examples = 6000
     floors = {'hostile': 0.15, 'nodict': 0.3, 'multi_action': 0.25, 'mode_watch': 0.05, 'mode_return': 0.05,
-              'mode_exception': 0.04, 'iterator': 0.1, 'non_utf8': 0.02}
+              'mode_exception': 0.04, 'iterator': 0.08, 'non_utf8': 0.02,
+              'different_settings_per_action': 0.1}
 
     def strategy(self, tier):
         big = tier == 'thorough'
@@ -103,6 +104,8 @@ class C06(Prop):
             'route': st.sampled_from(['triggers', 'response']),
             'mode': st.sampled_from(['locals', 'watch', 'locals', 'return', 'exception', 'watch', 'locals']),
             'frame_type': st.sampled_from(['single_frame', 'all_frame']),
+            'frame_types': st.lists(st.sampled_from(['single_frame', 'all_frame', 'no_frame', 'single_frame']),
+                                    min_size=4, max_size=4),
         })
 
     def run_case(self, recipe):
@@ -145,6 +148,10 @@ class C06(Prop):
         if any(k not in REPO_TEST_KINDS for k in kinds) or len(actions) >= 2:
             out.nontrivial = True
         always = {'fire_count': '-1', 'fire_period': '0', 'frame_type': recipe['frame_type']}
+        fts = recipe.get('frame_types') or [recipe['frame_type']] * 4
+        per_action_ft = [fts[i % len(fts)] for i in range(len(actions))]
+        if len({per_action_ft[i] for i, a in enumerate(actions) if a.startswith('snapshot')}) > 1:
+            out.cls('different_settings_per_action')
         watches = ['h0'] if mode == 'watch' else []
         path, line = 'c06_target.py', 4
         metric_proc = lab.RecMetricProcessor()
@@ -157,6 +164,7 @@ class C06(Prop):
             tps = []
             for i, a in enumerate(actions):
                 args = dict(always)
+                args['frame_type'] = per_action_ft[i]
                 if a == 'log':
                     args.update({'log_msg': 'v={s_int}', 'snapshot': 'no_collect'})
                 elif a == 'snapshot+log':
@@ -237,6 +245,16 @@ class C06(Prop):
                     msg.SerializeToString()
                 except BaseException as e:      # noqa
                     out.violate('snapshot not serialisable %s' % type(e).__name__, {'kinds': kinds})
+            own_ft = recipe['frame_type']
+            if mode in ('locals', 'watch'):
+                try:
+                    own_ft = per_action_ft[int(snap.tracepoint.id[2:])]
+                except (ValueError, IndexError):
+                    out.violate('snapshot names an unknown tracepoint', {'id': snap.tracepoint.id})
+            if own_ft == 'no_frame':
+                if snap.frames and snap.frames[0].variables:
+                    out.violate('%s: variables collected although its own frame_type is no_frame' % tag)
+                continue
             if not check_sentinels(out, snap, list(frame_locals.keys()), tag):
                 continue
             dangling = closure_ok(snap)
